@@ -269,6 +269,9 @@ Section Refine.
       + destruct (deser (i_kind c) (f_data y)) as [o|] eqn:D; cbn.
         * split; [exact SameInv|]. exact (Hit o eq_refl).
         * split; [|reflexivity]. destruct (kind_eqb (i_kind c) KGcf); assumption.
+      + destruct (deser (i_kind c) (f_data y)) as [o|] eqn:D; cbn.
+        * split; [exact SameInv|]. exact (Hit o eq_refl).
+        * split; [|reflexivity]. destruct (kind_eqb (i_kind c) KGcf); assumption.
     - (* OPurge *)
       cbn [Model.step Model.spec_step]. rewrite <- Iinst.
       destruct (insts s i) as [c|] eqn:Ei; [|split; [constructor; assumption|reflexivity]].
